@@ -48,6 +48,43 @@ def invariants(cfg, want_exit=True):
     return errs
 
 
+def normal_form(cfg):
+    """Path-language normal form: contract every unconditional edge u->v where u has one out-edge and
+    v one in-edge (v not the entry), then describe blocks by their operation lists and edges by
+    (guard, target operations).  Two graphs with the same normal form execute the same instruction
+    sequences from the entry."""
+    ops = {b["index"]: [json.dumps(i["op"], sort_keys=True) for i in b["instructions"]] for b in cfg["blocks"]}
+    out = {i: [] for i in ops}
+    for e in cfg["edges"]:
+        out[e["head"]].append((json.dumps(e["cond"], sort_keys=True), e["tail"]))
+    entry = cfg.get("entry")
+    changed = True
+    while changed:
+        changed = False
+        indeg = {i: 0 for i in ops}
+        for h in out:
+            for c, t in out[h]:
+                indeg[t] += 1
+        for u in list(ops):
+            if u not in ops or len(out[u]) != 1: continue
+            c, v = out[u][0]
+            if c != "null" or v == u or v == entry or indeg.get(v) != 1: continue
+            ops[u] = ops[u] + ops[v]
+            out[u] = out[v]
+            del ops[v]; del out[v]
+            changed = True
+            break
+    # reachable part only, described without indices
+    seen = []; stack = [entry] if entry in ops else []
+    while stack:
+        n = stack.pop()
+        if n in seen: continue
+        seen.append(n)
+        for c, t in out[n]: stack.append(t)
+    desc = sorted((tuple(ops[n]), tuple(sorted((c, tuple(ops[t])) for c, t in out[n])), n == entry) for n in seen)
+    return desc
+
+
 class TraceHooks:
     """il2smt.run_graph hooks: ghost polynomial hash of the executed operation sequence."""
 
@@ -106,6 +143,8 @@ def check_merge(item):
     before = [x for x in r["results"] if "cfg" in x][0]["cfg"]
     after = [x for x in r["results"] if "cfg" in x][1]["cfg"]
     errs = invariants(before) + ["after merge: " + e for e in invariants(after)]
+    if normal_form(before) != normal_form(after):
+        errs.append("after merge: executable instruction sequences differ")
     res["ground"] = errs[:4]
     res["blocks"] = [len(before["blocks"]), len(after["blocks"])]
     if errs:
@@ -159,9 +198,19 @@ def check_append(item):
         bs = {b["index"] for b in ins["blocks"]}
         if insres[0]["entry"] not in bs or insres[0]["exit"] not in bs:
             errs.append("insert returned indices of missing blocks")
+    # path-language obligation: result == g1 U g2 U {exit(g1) -> entry(g2)} up to contraction of straight lines
+    off = max(b["index"] for b in g1["blocks"]) + 1
+    exp = {"entry": g1["entry"], "exit": f2["cfg"]["exit"] + off,
+           "blocks": g1["blocks"] + [dict(b, index=b["index"] + off) for b in f2["cfg"]["blocks"]],
+           "edges": g1["edges"] + [{"head": e["head"] + off, "tail": e["tail"] + off, "cond": e["cond"]} for e in f2["cfg"]["edges"]] +
+                    [{"head": g1["exit"], "tail": f2["cfg"]["entry"] + off, "cond": None}]}
+    if normal_form(exp) != normal_form(app):
+        errs.append("after append: executable instruction sequences differ from 'first graph, then second graph'")
     res["ground"] = errs[:4]
     if errs:
         res.update(status="ground-fail", before=g1, after=app); return res
+    if item.get("structural_only"):
+        res.update(status="ground-ok"); return res
     ctx = il2smt.Ctx()
     k = 3 * (fbmc.longest_acyclic(f1["cfg"]) + fbmc.longest_acyclic(f2["cfg"]) + 2)
     try:
@@ -263,6 +312,11 @@ def main():
     acyc = ilgen.corpus(8500 + rep.seed, n // 2, profile="mixed", widths=(32,), skeletons=["straight", "single", "diamond", "nested", "switch3", "emptyarms", "longarm_a"])
     for i in range(0, len(acyc) - 1, 2):
         items.append({"kind": "append", "f": acyc[i], "g": acyc[i + 1], "tier": rep.tier})
+    # first graphs whose exit block has outgoing edges (loop bodies that are the exit), second graphs of one block
+    loops = ilgen.corpus(8700 + rep.seed, 12, profile="mixed", widths=(32,), skeletons=["exitloop", "dowhile", "while", "entryloop"])
+    singles = ilgen.corpus(8800 + rep.seed, 12, profile="mixed", widths=(32,), skeletons=["single", "straight"])
+    for a, b in zip(loops, singles):
+        items.append({"kind": "append", "f": a, "g": b, "tier": rep.tier, "structural_only": True})
     for i, f in enumerate(fs[: n // 3]):
         items.append({"kind": "blockedit", "f": f, "seed": rep.seed * 1000 + i})
     for arch, hx, lab in [("amd64", "4801d84829c3", "add;sub"), ("amd64", "4801d8", "add"), ("x86", "01d829c331c0", "add;sub;xor"),
